@@ -27,6 +27,42 @@ theorem store_then_fetch (cfg : Cfg) (s s' : St) (verb : SVerb) (k : Key.K) (v :
   · rw [refines_get cfg s' k hk, spec_get cfg s' k w hck, hlive, hsettled]
   · rw [refines_gets cfg s' k hk, spec_gets cfg s' k w hck, hlive, hsettled]
 
+/-- the state after a successful replacing store -/
+theorem store_true_state (cfg : Cfg) (s s' : St) (verb : SVerb) (k : Key.K) (v : Val) (d : Bytes)
+    (flags : Option Int) (cas : Option CasArg) (b : Bool)
+    (hverb : verb ≠ .append ∧ verb ≠ .prepend) (hk : KeyOK cfg k) (hf : FlagsOK flags)
+    (hv : encodeVal cfg.utf8 v = .ok d)
+    (hset : onServer cfg s (.store verb k v (.int 0) (some false) flags cas) = (s', .ok (.bool true), b)) :
+    ∃ w, checkKey cfg k = .ok w ∧ s' = store (settle s) w (flagsOf flags).toNat 0 d := by
+  rw [refines_store cfg s verb k v (.int 0) (some false) flags cas hk hf] at hset
+  have hspec : spec cfg s (.store verb k v (.int 0) (some false) flags cas) = (s', .ok (.bool true)) := by
+    simp only [Prod.mk.injEq] at hset
+    exact Prod.ext hset.1 hset.2.1
+  obtain ⟨w, d', cv, hck, hval, happ⟩ := spec_store_true cfg s s' verb k v 0 flags cas hspec
+  rw [hv] at hval; cases hval
+  refine ⟨w, hck, ?_⟩
+  have := applyLoud_stored s verb w (flagsOf flags).toNat 0 d cv false hverb (by rw [happ])
+  rw [happ] at this; exact this
+
+/-- an item stored with expiry 0 is still there after any time, unless a delayed flush becomes due -/
+theorem store_then_fetch_over_time (cfg : Cfg) (s s' : St) (verb : SVerb) (k : Key.K) (v : Val) (d : Bytes)
+    (flags : Option Int) (cas : Option CasArg) (b : Bool) (dt : Nat)
+    (hverb : verb ≠ .append ∧ verb ≠ .prepend) (hk : KeyOK cfg k) (hf : FlagsOK flags)
+    (hv : encodeVal cfg.utf8 v = .ok d)
+    (hset : onServer cfg s (.store verb k v (.int 0) (some false) flags cas) = (s', .ok (.bool true), b))
+    (hfl : ∀ t, s'.flushAt = some t → s'.now + dt < t) :
+    onServer cfg (advance s' dt) (.get k) = (advance s' dt, .ok (.bytes d), true) ∧
+    onServer cfg (advance s' dt) (.gets k) =
+      (advance s' dt, .ok (.pair d (natDec ((settle s).casCtr + 1))), true) := by
+  obtain ⟨w, hck, hs'⟩ := store_true_state cfg s s' verb k v d flags cas b hverb hk hf hv hset
+  have hsettled : settle (advance s' dt) = advance s' dt := settle_of_settled hfl
+  have hlive : live (settle (advance s' dt)) w = some ⟨(flagsOf flags).toNat, 0, d, (settle s).casCtr + 1⟩ := by
+    rw [hsettled, hs']
+    simp [live, advance, store, lookup_put_self, absExp, expired]
+  constructor
+  · rw [refines_get cfg _ k hk, spec_get cfg _ k w hck, hlive, hsettled]
+  · rw [refines_gets cfg _ k hk, spec_gets cfg _ k w hck, hlive, hsettled]
+
 /-- `gets` hands out the item's cas value; a `cas` with that token (and nothing in between) stores -/
 theorem gets_then_cas (cfg : Cfg) (s s1 : St) (k : Key.K) (v tok : Bytes) (b : Bool)
     (v' : Val) (d : Bytes) (e : Int) (flags : Option Int) (noreply : Option Bool)
